@@ -1,7 +1,7 @@
 (* C04 — property theorems only (model: Reader/Model.v, proofs: Reader/Proofs.v, C04/Proofs.v) *)
 From Coq Require Import List String NArith ZArith Bool.
 From Verif Require Import Base.Util Reader.Model Reader.Script Reader.Proofs C04.Check C04.Proofs Reader.Example.
-From Verif Require C04.Once C04.OCheck.
+From Verif Require C04.Once C04.OCheck C04.PartProofs.
 Import ListNotations.
 Local Open Scope string_scope.
 Local Open Scope N_scope.
@@ -45,6 +45,22 @@ Definition ex_drop : list label :=
                          p_msgs := [{| m_kind := KDropColl; m_id := 5; m_coll := 101; m_part := 0; m_pname := ""; m_ts := 15; m_rows := O; m_pospch := true |}] |} [];
    StartColl {| ci_id := 101; ci_name := "c1"; ci_tid := 9101; ci_src := [("s_v0", "s0"); ("s_v1", "s1")]; ci_tgt := [("t_v0", "t0"); ("t_v1", "t1")];
                 ci_parts := [("_default", 7%Z)]; ci_dropped := false; ci_seek := [] |}].
+
+(* the partition half, over every history of the reader model (partitions registered - also as dropped -, packs fed in any order on any
+   shard, handlers waiting and started, collections stopped and started again): at most one drop-partition request is ever issued for a
+   partition, once it has been issued the partition is marked dropped (so it is never registered again), and partition barriers are
+   unique per (collection, partition) *)
+Theorem C04_partition_at_most_once : forall retries ls c p,
+  let s := run retries ls in
+  (PartProofs.cntp c p s <= 1)%nat /\ (PartProofs.cntp c p s = 1%nat -> zmem p (dparts s) = true) /\ NoDup (map fst (pbars s)).
+Proof. exact PartProofs.partition_at_most_once. Qed.
+Print Assumptions C04_partition_at_most_once.
+
+(* a drop-partition request is issued only by a barrier that has not fired and has counted as many signals as handlers were registered *)
+Theorem C04_partition_only_when_counted : forall s c p b, events (PartProofs.firep s ((c, p), b)) <> events s ->
+  b_done b = false /\ (b_dest b <= b_got b)%nat /\ events (PartProofs.firep s ((c, p), b)) = (events s ++ [EvDropPart c p (b_ts b)])%list.
+Proof. exact PartProofs.firep_counted. Qed.
+Print Assumptions C04_partition_only_when_counted.
 
 (* the once-only signal of a shard to a drop barrier (OnceWriteChan.Write): whatever the schedule of the goroutines that reach it
    - the pack a handler generates for an object dropped while CDC was down and the real drop message of the stream may arrive at the
